@@ -24,7 +24,8 @@ Inductive xop :=
 | XFail
 | XRestart (lost : bool)           (* new process on the same / an empty certificate database, start-up reconciliation *)
 | XCrashEpoch (max : N)            (* epoch tick during which the process dies between "accepted" and "row stored"; restart *)
-| XCrashStatus (max : N).
+| XCrashStatus (max : N)
+| XTickF (epoch : bool) (max rule : N).   (* aggchain-prover flow: a tick; rule = what the scripted prover answers *)
 
 (* ---------- observations ---------- *)
 Record exit_obs := mkXO { xo_exit : bridge_exit; xo_hash : N }.                 (* fields + BridgeExit.Hash() *)
@@ -38,7 +39,7 @@ Record step_obs := mkST { st_subs : list sub_obs; st_rows : option (list row_obs
                           st_refused : option bool (* a start-up reconciliation ran during this event: was it refused *) }.
 (* c_seeds: certificates that exist before the sender starts (rows of certificate_info = the Agglayer's records),
    ascending height, ids 0,1,2,... *)
-Record case02 := mkCase02 { c_retry : bool; c_aggprev : bool (* Agglayer headers carry prev_local_exit_root *);
+Record case02 := mkCase02 { c_fep : bool (* aggchain-prover flow instead of the PP flow *); c_retry : bool; c_aggprev : bool (* Agglayer headers carry prev_local_exit_root *);
                             c_start : N; c_start_ler : N; c_pre : list xop; c_seeds : list row_obs;
                             c_steps : list xop; c_obs : list step_obs }.
 
@@ -68,7 +69,7 @@ Definition row_obs_eqb (a b : row_obs) : bool :=
 Definition cc_events {A} (meta_len : A -> N) (idn : A -> N) (sel : blk bridge_ev claim_ev -> list A) (l : list (blk bridge_ev claim_ev))
   (f t : N) : list CertCut.event :=
   flat_map (fun b => map (fun e => CertCut.Ev (k_num b) (meta_len e) (idn e)) (sel b)) (filter (in_rng f t) l).
-Definition cut_of (start : N) (s : xstate) (max : N) : N :=
+Definition cut_of_ty (ty : CertCut.cert_type) (start : N) (s : xstate) (max : N) : N :=
   let '(rs, _) := poll_pending (fail_next s) (agg s) (rows s) in
   let last := hd_error rs in
   let '(prev_to, rc) := last_sent_block N bridge_ev claim_ev start last in
@@ -77,11 +78,13 @@ Definition cut_of (start : N) (s : xstate) (max : N) : N :=
   let p := CertCut.P f (synced s)
              (cc_events (fun e => N.of_nat (length (b_meta e))) b_dc k_bridges (l2 s) f (synced s))
              (cc_events (fun e => N.of_nat (length (c_meta e))) c_gi k_claims (l2 s) f (synced s))
-             (Z.of_N rc) (match last with Some _ => true | None => false end) CertCut.TPP in
+             (Z.of_N rc) (match last with Some _ => true | None => false end) ty in
   match CertCut.limit_cert_size_exec CertCut.estimated_size max p with
   | CertCut.LDone c' => synced s - CertCut.p_to c'
   | _ => 0
   end.
+
+Definition cut_of := cut_of_ty CertCut.TPP.
 
 Definition to_event (start : N) (s : xstate) (x : xop) : xrevent :=
   match x with
@@ -94,6 +97,7 @@ Definition to_event (start : N) (s : xstate) (x : xop) : xrevent :=
   | XRestart lost => RRestart lost
   | XCrashEpoch max => RCrashTick true (cut_of start s max)
   | XCrashStatus max => RCrashTick false (cut_of start s max)
+  | XTickF _ _ _ => RCore (AggMove (next_id s) Pending)              (* not an event of the PP flow: ignored *)
   end.
 
 (* what the model expects the Agglayer to receive / the table to hold, in the shape of the observations *)
@@ -147,7 +151,28 @@ Definition seeded_state (s : xstate) (seeds : list row_obs) : xrstate :=
                        (match ro_prev o with Some p => p | None => 0 end) (ro_new o)) seeds)
      false.
 
+(* aggchain-prover flow: the same loop around build_fep, the prover answering by the tick's rule *)
+Fixpoint corr_run_fep (retry : bool) (start ler : N) (s : xstate) (steps : list xop) (obs : list step_obs) (last : list row_obs) : bool :=
+  match steps, obs with
+  | [], [] => true
+  | x :: steps', o :: obs' =>
+    let '(s', subs) :=
+      match x with
+      | XTickF epoch max rule =>
+          let cut := cut_of_ty CertCut.TFEP start s max in
+          xstep_fep retry start ler rule s (if epoch then EpochTick cut else StatusTick cut)
+      | _ => match to_event start s x with RCore e => xstep_fep retry start ler 0 s e | _ => (s, []) end
+      end in
+    let rows_now := match st_rows o with Some r => r | None => last end in
+    list_rel sub_matches subs (st_subs o) &&
+    list_eqb row_obs_eqb (map exp_row (rev (rows s'))) rows_now &&
+    (synced s' =? st_synced o) &&
+    corr_run_fep retry start ler s' steps' obs' rows_now
+  | _, _ => false
+  end.
+
 Definition corr (c : case02) : bool :=
+  if c_fep c then corr_run_fep (c_retry c) (c_start c) (c_start_ler c) (pre_state (c_pre c)) (c_steps c) (c_obs c) [] else
   let s0 := seeded_state (pre_state (c_pre c)) (c_seeds c) in
   (* getStartLER(): the tree root at the start block (the empty-tree root when nothing was deposited) *)
   corr_run (c_retry c) (c_aggprev c) (c_start c) (c_start_ler c) s0 (c_steps c) (c_obs c) [].
@@ -278,7 +303,7 @@ Definition spec_c02 (c : case02) : bool :=
 Definition ref_leaf (b : bridge_ev) : N :=
   get_leaf_value (b_lt b) (b_onet b) (b_oaddr b) (b_dnet b) (b_daddr b) (b_amount b) (keccakN (b_meta b)).
 
-Definition cert_ok_b (crash : bool) (e : env) (rows : list row_obs) (o : sub_obs) : bool :=
+Definition cert_ok_b (ctype : N) (crash : bool) (e : env) (rows : list row_obs) (o : sub_obs) : bool :=
   match sub_range o with
   | None => false
   | Some (f, t) =>
@@ -297,21 +322,21 @@ Definition cert_ok_b (crash : bool) (e : env) (rows : list row_obs) (o : sub_obs
     | Some r => (ro_from r =? f) && (ro_to r =? t)
     | None => crash
     end &&
-    match meta_decode (so_meta o) with Some d => (m_ctype d =? 1) && Nat.eqb (length (so_meta o)) 32 | None => false end
+    match meta_decode (so_meta o) with Some d => (m_ctype d =? ctype) && Nat.eqb (length (so_meta o)) 32 | None => false end
   end.
 
-Fixpoint spec03_run (e : env) (steps : list xop) (obs : list step_obs) (last : list row_obs) : bool :=
+Fixpoint spec03_run (ctype : N) (e : env) (steps : list xop) (obs : list step_obs) (last : list row_obs) : bool :=
   match steps, obs with
   | [], _ => true
   | x :: steps', o :: obs' =>
     let e1 := env_step e x in
     let rows_now := match st_rows o with Some r => r | None => last end in
-    forallb (cert_ok_b (match x with XCrashEpoch _ | XCrashStatus _ => true | _ => false end) e1 rows_now) (st_subs o) &&
-    spec03_run (fold_left env_accept (st_subs o) e1) steps' obs' rows_now
+    forallb (cert_ok_b ctype (match x with XCrashEpoch _ | XCrashStatus _ => true | _ => false end) e1 rows_now) (st_subs o) &&
+    spec03_run ctype (fold_left env_accept (st_subs o) e1) steps' obs' rows_now
   | _ :: _, [] => false
   end.
 Definition spec_c03 (c : case02) : bool :=
-  spec03_run (seed_env (pre_env (c_pre c)) (c_seeds c)) (c_steps c) (c_obs c) [] && negb (Nat.eqb (length (c_obs c)) 0).
+  spec03_run (if c_fep c then 2 else 1) (seed_env (pre_env (c_pre c)) (c_seeds c)) (c_steps c) (c_obs c) [] && negb (Nat.eqb (length (c_obs c)) 0).
 
 Fixpoint bad_indices {A} (f : A -> bool) (i : nat) (l : list A) : list nat :=
   match l with [] => [] | x :: t => if f x then bad_indices f (S i) t else i :: bad_indices f (S i) t end.
